@@ -15,6 +15,12 @@ def parseFault (s : String) : Except String Fault :=
   | "conflict" => pure .conflict
   | "notfound" => pure .notFound
   | "crash" => pure .crash
+  -- provider calls only: the near misses of "instance not found" (an error that is or wraps a Kubernetes API
+  -- NotFound / Conflict / Gone for another object, the provider's other typed errors, a context error, a message that
+  -- merely says "not found") are failures like any other: none of them confirms that the instance is gone
+  | "apiNotFound" | "apiNotFoundBare" | "apiConflict" | "apiGone" | "ncnr" | "ice" | "ctx" | "notFoundText" => pure .err
+  -- the provider answers honestly, a not-found answer wrapped in another error (still a NodeClaimNotFoundError)
+  | "wrapnf" => pure .ok
   | _ => .error s!"bad fault class {s}"
 
 def faultOf (faults : Json) (k : String) : Except String Fault :=
